@@ -118,12 +118,19 @@ func (p *C12) Generate(seed uint64, run int) *Case {
 			c.Labels = append(c.Labels, "new-flag:"+name)
 		}
 	}
+	// the pinned families (megabyte inputs, limit track counts) stay as they
+	// are: no broken input, no dictionaries on top
+	_, pinnedA := c.HasLabel("input:above-round-size")
+	_, pinnedB := c.HasLabel("track-count-at-the-limits")
+	pinned := pinnedA || pinnedB
 	// one run in five: an input that makes the command fail
-	if b.Input != nil && r.Chance(1, 5) {
+	if b.Input != nil && !pinned && r.Chance(1, 5) {
 		b.Input = breakInput(r, &b)
 		c.Labels = append(c.Labels, "failing-input")
 	}
-	if b.Class != "gen" && b.Class != "text" && r.Chance(1, 4) {
+	if pinned {
+		// nothing added
+	} else if b.Class != "gen" && b.Class != "text" && r.Chance(1, 4) {
 		p.w.WithDict(r, &b)
 		c.Labels = append(c.Labels, "user-dictionary")
 		if cmd := CommandOf(b.Argv); (cmd == "info chord list" || cmd == "info attr list") && r.Chance(1, 3) {
